@@ -34,4 +34,6 @@ int fam_solve(const vh_args_t *a);
 int fam_kernel(const vh_args_t *a);
 int fam_kernels(const vh_args_t *a);
 int fam_alloc(const vh_args_t *a);
+int fam_fault(const vh_args_t *a);
+int fam_io(const vh_args_t *a);
 #endif
